@@ -1,0 +1,63 @@
+//go:build verif
+
+package router
+
+import (
+	"net/netip"
+
+	"github.com/mycoria/mycoria/mgr"
+)
+
+// VerifFrameWorker returns the router's frame handling worker function, so
+// that a verification driver can run it under its own manager and feed it
+// frames through Input() one at a time.
+// Verification hook: only compiled with the "verif" build tag.
+func (r *Router) VerifFrameWorker() func(w *mgr.WorkerCtx) error {
+	return r.frameHandler
+}
+
+// VerifHandleTunPacket hands a packet "from the local network interface" to
+// the router, exactly as the tun handler worker does.
+// Verification hook: only compiled with the "verif" build tag.
+func (r *Router) VerifHandleTunPacket(w *mgr.WorkerCtx, packetData []byte) {
+	r.handleTunPacket(w, packetData)
+}
+
+// VerifSetHandleTraffic switches traffic handling on or off (it is switched
+// off for relay-only routers and while stopping).
+// Verification hook: only compiled with the "verif" build tag.
+func (r *Router) VerifSetHandleTraffic(on bool) {
+	r.handleTraffic.Store(on)
+}
+
+// VerifConnState is an exported copy of one connection state entry.
+type VerifConnState struct {
+	LocalIP    netip.Addr
+	RemoteIP   netip.Addr
+	Protocol   uint8
+	LocalPort  uint16
+	RemotePort uint16
+	Inbound    bool
+	Status     string
+}
+
+// VerifConnStates returns a copy of all connection state entries.
+// Verification hook: only compiled with the "verif" build tag.
+func (r *Router) VerifConnStates() []VerifConnState {
+	r.connStatesLock.RLock()
+	defer r.connStatesLock.RUnlock()
+
+	out := make([]VerifConnState, 0, len(r.connStates))
+	for key, entry := range r.connStates {
+		out = append(out, VerifConnState{
+			LocalIP:    key.localIP,
+			RemoteIP:   key.remoteIP,
+			Protocol:   key.protocol,
+			LocalPort:  key.localPort,
+			RemotePort: key.remotePort,
+			Inbound:    entry.inbound,
+			Status:     connStatus(entry.status.Load()).Name(),
+		})
+	}
+	return out
+}
